@@ -31,19 +31,20 @@ import (
 // test-only innermost `probe` handler, which executes a per-request script.
 
 type pscript struct {
-	mode      string // write | return | static
-	status    int
-	retErr    bool
-	ctype     string
-	setCL     bool
-	preCE     string // Content-Encoding the handler sets itself
-	etag      string
-	explicit  bool // WriteHeader called explicitly
-	writes    [][]byte
-	flush     []bool
-	panicAt   int // -1: never; k: before write k (0 = before anything is written); len(writes): after all writes
-	readBody  bool
-	readSizes []int
+	mode       string // write | return | static
+	status     int
+	retErr     bool
+	ctype      string
+	setCL      bool
+	preCE      string // Content-Encoding the handler sets itself
+	etag       string
+	explicit   bool // WriteHeader called explicitly
+	writes     [][]byte
+	flush      []bool
+	flushFirst bool // Flush before the first Write (as streaming handlers and proxies do)
+	panicAt    int  // -1: never; k: before write k (0 = before anything is written); len(writes): after all writes
+	readBody   bool
+	readSizes  []int
 }
 
 type sreq struct {
@@ -71,38 +72,38 @@ type siteRig struct {
 	st   *sim.Stream
 	mode string // C12 | C18 | C20 | C17
 
-	root     string
-	logFile  string
-	errFile  string
-	hasLog   bool
-	logExcept string
-	hasGzip  bool
-	gzLevel  int
-	gzMin    int
-	gzNot    string
-	hasErrors bool
-	errPages map[int]string
-	hasHeader bool
-	hasStatus bool
-	hasMime   bool
-	hasReqID  bool
+	root        string
+	logFile     string
+	errFile     string
+	hasLog      bool
+	logExcept   string
+	hasGzip     bool
+	gzLevel     int
+	gzMin       int
+	gzNot       string
+	hasErrors   bool
+	errPages    map[int]string
+	hasHeader   bool
+	hasStatus   bool
+	hasMime     bool
+	hasReqID    bool
 	hasInternal bool
-	hasAuth   bool
-	limit     int // 0 = none
-	limitSub  int // nested scope /p/sub
-	siblings  map[string][]string // static file -> encodings present
+	hasAuth     bool
+	limit       int                 // 0 = none
+	limitSub    int                 // nested scope /p/sub
+	siblings    map[string][]string // static file -> encodings present
 
-	port    int
-	started bool
-	cleanup bool
-	opDone  bool
-	finish  chan struct{}
-	reqs    []*sreq
-	conns   []*hclient
-	scripts map[string]*pscript
-	parkSeq int
-	static  map[string][]byte
-	frags   []logFrag
+	port         int
+	started      bool
+	cleanup      bool
+	opDone       bool
+	finish       chan struct{}
+	reqs         []*sreq
+	conns        []*hclient
+	scripts      map[string]*pscript
+	parkSeq      int
+	static       map[string][]byte
+	frags        []logFrag
 	hasTemplates bool
 	errVisible   bool
 }
@@ -216,6 +217,13 @@ func (r *siteRig) probe(label string, next httpserver.Handler, w http.ResponseWr
 	if sc.explicit {
 		park("header")
 		w.WriteHeader(sc.status)
+	}
+	if sc.flushFirst && len(writes) > 0 {
+		park("flush-first")
+		if f, ok := w.(http.Flusher); ok {
+			c.Probe("flush-before-first-write")
+			f.Flush()
+		}
 	}
 	for i, b := range writes {
 		if sc.panicAt == i && i > 0 {
@@ -705,10 +713,12 @@ func (r *siteRig) genReq(id, site string) *sreq {
 		if pick(20) {
 			sc.etag = `"etag-` + id + `"`
 		}
+		// a Flush before any Write commits the header (an implicit 200)
+		sc.flushFirst = pick(10) && len(sc.writes) > 0 && (sc.explicit || sc.status == 200)
 	}
 	if sc.readBody && sc.mode == "write" {
 		// the handler reports what it read in the response body
-		sc.status, sc.preCE, sc.writes, sc.flush = 200, "", [][]byte{[]byte("x")}, []bool{false}
+		sc.status, sc.preCE, sc.writes, sc.flush, sc.flushFirst = 200, "", [][]byte{[]byte("x")}, []bool{false}, false
 	}
 	if pick(15) && r.mode != "C19" {
 		sc.panicAt = st.Draw(len(sc.writes) + 1)
@@ -747,7 +757,7 @@ func (r *siteRig) hostileRequest(q *sreq) {
 
 func (r *siteRig) addConn(rs []*sreq) {
 	st := r.st
-	h := &hclient{id: len(r.conns), w: r.w, ip: "127.0.0.1"}
+	h := &hclient{id: len(r.conns), w: r.w, ip: "127.0.0.1", opaque: r.errVisible}
 	for j, q := range rs {
 		q.conn, q.idx = h, j
 		var b strings.Builder
